@@ -36,3 +36,11 @@ package definitions
 
 //@ func GetRouteSupportedHttpVerbs trusted
 //@ ensures fresh(result)
+
+// The return-type accessors hand out pointers into the route's Responses (interior pointers: outside the subset).
+// Assumed; callers must have at least one response (the receiver validator rejects void methods).
+//@ func RouteMetadata.GetErrorReturnType trusted
+//@ requires len(m.Responses) >= 1
+//@ ensures result != nil
+//@ func RouteMetadata.GetValueReturnType trusted
+//@ ensures (result == nil) == (len(m.Responses) <= 1)
